@@ -30,7 +30,7 @@ PROFILE = gf.make_profile(
     kinds={"call": 14, "assign_scalar": 6, "assign_elem": 6, "do": 6,
            "if": 3, "assign_section": 2, "where": 0, "select": 1,
            "dowhile": 0, "exitcycle": 0},
-    helpers=(1, 3), nstmts=(2, 6))
+    helpers=(1, 3), nstmts=(2, 6), index_alias_calls=40)
 
 
 def calls(routine):
